@@ -49,11 +49,53 @@ Definition covered_nondet : list string :=
     "go:app:New"                                (* daemon start-up in app.New, off the ABCI call graph *)
   ]%string.
 
+(* in-memory state of consensus objects (struct fields and package variables that are, or contain, a map, a channel,
+   a sync primitive or a pointer to a struct of the module), as the scanner reports them.  None of these is written
+   or read on the path of a block: *)
+Definition covered_state : list string :=
+  [ (* the application object: daemon clients / servers (off the ABCI path) and the store-key tables built once in New *)
+    "field:app:App.DaemonHealthMonitor (pointer to HealthMonitor)"; "field:app:App.PriceFeedClient (pointer to Client)";
+    "field:app:App.ReporterClient (pointer to Client)"; "field:app:App.Server (pointer to Server)";
+    "field:app:App.TokenBridgeClient (pointer to Client)";
+    "field:app:App.keys (map)"; "field:app:App.memKeys (map)"; "field:app:App.tkeys (map)";
+    (* the price daemon's store: off consensus, subject of C20 *)
+    "field:daemons/server/types/pricefeed:ExchangeToPrice.exchangeToPriceTimestamp (map)";
+    "field:daemons/server/types/pricefeed:MarketToExchangePrices.Mutex (sync)";
+    "field:daemons/server/types/pricefeed:MarketToExchangePrices.marketToExchangePrices (map)";
+    (* depinject wiring inputs (start-up only) *)
+    "field:x/bridge:BridgeInputs.Config (pointer to Module)"; "field:x/dispute:DisputeInputs.Config (pointer to Module)";
+    "field:x/mint:MintInputs.Config (pointer to Module)"; "field:x/oracle:OracleInputs.Config (pointer to Module)";
+    "field:x/registry/module:RegistryInputs.Config (pointer to Module)"; "field:x/reporter/module:ModuleInputs.Config (pointer to Module)";
+    (* module-account permission table (read only after start-up) and a memo of powers of ten (a pure function's table) *)
+    "var:app:maccPerms (map)"; "var:lib:bigPow10Memo (map)"
+  ]%string.
+
 Definition mem_str (s : string) (l : list string) : bool := existsb (String.eqb s) l.
+
+(* ---- node-local state, abstractly ------------------------------------------------------------------------
+   a block handler of a node: [h local store block = (local', store', output)]; [local] is whatever the node keeps in
+   memory between blocks.  [local_free]: store and output do not depend on it. *)
+Section NodeLocal.
+  Context {L S B O : Type} (h : L -> S -> B -> L * S * O).
+  Definition local_free : Prop :=
+    forall l l' s b, snd (fst (h l s b)) = snd (fst (h l' s b)) /\ snd (h l s b) = snd (h l' s b).
+  Fixpoint run_node (l : L) (s : S) (bs : list B) : S * list O :=
+    match bs with
+    | [] => (s, [])
+    | b :: t => let '(l', s', o) := h l s b in let '(sf, os) := run_node l' s' t in (sf, o :: os)
+    end.
+End NodeLocal.
+
+(* the shape of a cached read that goes wrong: the store holds a number, block [true] writes store := 1 and refreshes
+   the cache but the write is then rolled back (store unchanged), block [false] outputs the cached value (filled from
+   the store when empty) *)
+Definition cached_handler (l : option Z) (s : Z) (b : bool) : option Z * Z * Z :=
+  if b then (Some 1, s, 0)
+  else match l with Some c => (l, s, c) | None => (Some s, s, s) end.
 
 Inductive c01_case :=
 | PowerDiffCase (b c : list (Z * Z)) (impls : list Z)      (* distinct answers of repeated calls *)
-| SitesCase (map_sites nondet : list string)
+| SitesCase (map_sites nondet state : list string)
 (* one history executed on two fresh applications: per block (store digest, event digest) *)
 | ReplayCase (run1 run2 : list string).
 
@@ -62,9 +104,10 @@ Definition c01_check (c : c01_case) : issues :=
   | PowerDiffCase b c impls =>
       spec_if (Nat.leb (List.length impls) 1) "repeated executions of PowerDiff on the same input differ"
       ++ diff_if (forallb (Z.eqb (power_diff b c)) impls) "PowerDiff"
-  | SitesCase ms nd =>
+  | SitesCase ms nd st =>
       diff_if (forallb (fun s => mem_str s covered_map_sites) ms) "a map-range site without an order-independence theorem"
       ++ diff_if (forallb (fun s => mem_str s covered_nondet) nd) "a wall-clock / randomness / goroutine site outside the allow-list"
+      ++ diff_if (forallb (fun s => mem_str s covered_state) st) "in-memory state of a consensus object (a field or package variable holding a map, lock or pointer to a struct) outside the allow-list"
   | ReplayCase r1 r2 =>
       spec_if (list_eqb String.eqb r1 r2) "two executions of the same history produced different state or events"
   end.
